@@ -31,4 +31,5 @@ def run(idx, rep, tier):
     misc2.r_dupcond(idx, rep, [m.name for m in idx.lib_modules()], floor=3)
     misc2.r_stiffness(idx, rep)
     misc2.r_stiffness_chain(idx, rep)
+    hydro.r_contactforce(idx, rep)
     unpack.r_unpack(idx, rep, floor=14)
